@@ -4,14 +4,21 @@ import RrModel.Spec.Tables
 /-
   C18 on cache-enabled rules (model RrModel/RedirectCache.lean).
 
-  * `found_reentry` (full): the Found site of cachingFunc is a PURE re-entry — no comparison of
-    any kind, no contact, no lock, the cache unchanged, `alwaysInclude` reset.
-  * `found_cycle_runs_away` (full): if Found re-entries lead an activation back to itself, the
-    handler never answers, for EVERY fuel, and without a single origin contact (finding C18-c).
-  * `cycle2_runs_away`, `self_runs_away` (witnesses): a 2-cycle and a plain self-redirect, stored
-    hop by hop through a non-restarting rule that shares the cache, read through the restarting
-    one; the stores are the ones the model's own history produces.
-  * `CachedTerminationStatement_false` (negation): no fuel bound serves every history.
+  * `found_reentry` (full): the Found site of cachingFunc is a re-entry that only COUNTS — no URL
+    is compared with any other, no contact, no lock, the cache unchanged, `alwaysInclude` reset,
+    the redirect counter one higher.
+  * `found_bound_508` (full): when the counter is exhausted the Found site answers 508 Loop
+    detected, without contact, the cache unchanged.
+  * `found_loop_508` (full; was `found_cycle_runs_away`, finding C18-c): a run of Found re-entries
+    that is still going on when the counter is exhausted ends in that 508 — not one origin contact
+    is made, for every fuel that covers the counter.
+  * `cycle2_508`, `self_508` (the former witnesses `cycle2_runs_away`, `self_runs_away`): a 2-cycle
+    and a plain self-redirect, stored hop by hop through a non-restarting rule that shares the
+    cache, read through the restarting one: 508 for every fuel from `maxRedirects + 1` on.
+  * `run_not_runaway`, `cached_terminates : CachedTerminationStatement` (FULL strength since the
+    repair of findings C18-a / C18-c; was `CachedTerminationStatement_false`): no request of any
+    history on any rule set, origin, store and lock set is cut as `runaway` once the fuel covers
+    the counter (`maxRedirects + 1` activations).
   * `hit_replays_entry` (full): a fresh stored non-redirect answer is replayed (status, body)
     without contact and without touching the cache.
   * `fill_then_hit` (full): warm = cold for a request answered by its first hop: whatever rule
@@ -19,15 +26,16 @@ import RrModel.Spec.Tables
     entry is fresh, the immediate repeat returns the same status and body without any contact.
   * `uncacheable_redirect_not_followed` (full, finding C18-d): in the writer branch a redirect
     with a do-not-cache directive is handed to the client, whatever restart_on_redirect says.
-  * `fails_witness_c`, `fails_witness_d` (witnesses): the oracle rejects the model's outcome.
+  * `fails_witness_d` (witness): the oracle rejects the model's outcome; the former
+    `fails_witness_c` is an `example` of the oracle accepting the 508.
 -/
 namespace Props.C18Cache
 open Go Model Model.Redirect Model.RedirectCache
 
 /-! ## The Found site -/
 
-/-- the conditions under which an activation is answered by the Found site's re-entry, and the
-    activation it re-enters with (server.go:96-106, 140-141, 204-213) -/
+/-- the conditions under which an activation is answered by the Found site, and the activation it
+    re-enters with when the counter allows (server.go:96-106, 140-141, 213-226) -/
 def foundNext (cfg : RedirectCache.Cfg) (now : Int) (locks : List Bytes) (store : Store) (a : Act) : Option Act :=
   match query a.req with
   | .panic _ => none
@@ -45,16 +53,17 @@ def foundNext (cfg : RedirectCache.Cfg) (now : Int) (locks : List Bytes) (store 
         | .found e _ =>
           if rule.restartOnRedirect ∧ cfg.isRedirect e.status then
             (RedirectCache.requestWithRedirect r e.redirectedURL).map fun rr =>
-              { req := rr, overrideURL := some rr.url, frf := some rule, inc := {} }
+              { req := rr, overrideURL := some rr.url, frf := some rule, inc := {}, hops := a.hops + 1 }
           else none
         | _ => none
 
-/-- **found_reentry**: whenever the Found site applies, one activation of `cachingFunc` is
-    EXACTLY the next one: nothing is compared with anything (no `urlEquals`, no hop count), nothing
-    is contacted, no lock is taken, the store is untouched -/
-theorem found_reentry (cfg : RedirectCache.Cfg) (now : Int) (n : Nat) (locks : List Bytes) (store : Store) (a a' : Act)
+/-- what the Found site does, given that it applies: re-enter when the counter allows, else 508 -/
+theorem found_site (cfg : RedirectCache.Cfg) (now : Int) (n : Nat) (locks : List Bytes) (store : Store) (a a' : Act)
     (h : foundNext cfg now locks store a = some a') :
-    run cfg now (n + 1) locks store a = run cfg now n locks store a' := by
+    run cfg now (n + 1) locks store a =
+      if a.hops + 1 > cfg.maxRedirects then
+        .done { sent := .userError 508 b!"Loop detected", contacts := [], store := store }
+      else run cfg now n locks store a' := by
   unfold foundNext at h
   conv => lhs; unfold run
   cases hq : query a.req with
@@ -88,7 +97,42 @@ theorem found_reentry (cfg : RedirectCache.Cfg) (now : Int) (n : Nat) (locks : L
           · simp at h
         all_goals simp at h
 
-/-- `k` Found re-entries in a row -/
+/-- **found_reentry**: whenever the Found site applies and the counter allows another redirect,
+    one activation of `cachingFunc` is EXACTLY the next one, the counter one higher: no URL is
+    compared with any other (no `urlEquals`), nothing is contacted, no lock is taken, the store is
+    untouched -/
+theorem found_reentry (cfg : RedirectCache.Cfg) (now : Int) (n : Nat) (locks : List Bytes) (store : Store) (a a' : Act)
+    (h : foundNext cfg now locks store a = some a') (hb : a.hops + 1 ≤ cfg.maxRedirects) :
+    run cfg now (n + 1) locks store a = run cfg now n locks store a' := by
+  rw [found_site cfg now n locks store a a' h, if_neg (by omega)]
+
+/-- **found_bound_508**: the Found site with the counter exhausted: 508 Loop detected, nothing
+    contacted, the store untouched -/
+theorem found_bound_508 (cfg : RedirectCache.Cfg) (now : Int) (n : Nat) (locks : List Bytes) (store : Store) (a a' : Act)
+    (h : foundNext cfg now locks store a = some a') (hb : cfg.maxRedirects < a.hops + 1) :
+    run cfg now (n + 1) locks store a =
+      .done { sent := .userError 508 b!"Loop detected", contacts := [], store := store } := by
+  rw [found_site cfg now n locks store a a' h, if_pos (by omega)]
+
+theorem foundNext_hops (cfg : RedirectCache.Cfg) (now : Int) (locks : List Bytes) (store : Store) (a a' : Act)
+    (h : foundNext cfg now locks store a = some a') : a'.hops = a.hops + 1 := by
+  unfold foundNext at h
+  split at h
+  · simp at h
+  · simp only at h
+    split at h
+    · simp at h
+    · split at h
+      · simp at h
+      · split at h
+        · split at h
+          · simp only [Option.map_eq_some_iff] at h
+            obtain ⟨_, _, rfl⟩ := h
+            rfl
+          · simp at h
+        · simp at h
+
+/-- `k` Found re-entries in a row (the counter is not looked at) -/
 def foundAt (cfg : RedirectCache.Cfg) (now : Int) (locks : List Bytes) (store : Store) : Nat → Act → Option Act
   | 0, a => some a
   | k + 1, a =>
@@ -97,10 +141,10 @@ def foundAt (cfg : RedirectCache.Cfg) (now : Int) (locks : List Bytes) (store : 
     | some a' => foundAt cfg now locks store k a'
 
 theorem run_foundAt (cfg : RedirectCache.Cfg) (now : Int) (locks : List Bytes) (store : Store) (k n : Nat) (a s : Act)
-    (h : foundAt cfg now locks store k a = some s) :
-    run cfg now (n + k) locks store a = run cfg now n locks store s := by
+    (h : foundAt cfg now locks store k a = some s) (hb : a.hops + k ≤ cfg.maxRedirects) :
+    run cfg now (n + k) locks store a = run cfg now n locks store s ∧ s.hops = a.hops + k := by
   induction k generalizing a with
-  | zero => simp only [foundAt, Option.some.injEq] at h; subst h; rfl
+  | zero => simp only [foundAt, Option.some.injEq] at h; subst h; exact ⟨rfl, rfl⟩
   | succ k ih =>
     unfold foundAt at h
     cases hf : foundNext cfg now locks store a with
@@ -108,44 +152,28 @@ theorem run_foundAt (cfg : RedirectCache.Cfg) (now : Int) (locks : List Bytes) (
     | some a' =>
       rw [hf] at h
       simp only at h
-      rw [show n + (k + 1) = (n + k) + 1 by omega, found_reentry cfg now (n + k) locks store a a' hf]
-      exact ih a' h
+      have hh := foundNext_hops cfg now locks store a a' hf
+      rw [show n + (k + 1) = (n + k) + 1 by omega, found_reentry cfg now (n + k) locks store a a' hf (by omega)]
+      obtain ⟨h1, h2⟩ := ih a' h (by omega)
+      exact ⟨h1, by omega⟩
 
-theorem foundAt_short (cfg : RedirectCache.Cfg) (now : Int) (locks : List Bytes) (store : Store) (k : Nat) (a s : Act)
-    (h : foundAt cfg now locks store k a = some s) :
-    ∀ n, n ≤ k → run cfg now n locks store a = .runaway [] := by
-  induction k generalizing a with
-  | zero => intro n hn; have : n = 0 := by omega
-            subst this; rfl
-  | succ k ih =>
-    intro n hn
-    cases n with
-    | zero => rfl
-    | succ m =>
-      unfold foundAt at h
-      cases hf : foundNext cfg now locks store a with
-      | none => rw [hf] at h; simp at h
-      | some a' =>
-        rw [hf] at h
-        simp only at h
-        rw [found_reentry cfg now m locks store a a' hf]
-        exact ih a' h m (by omega)
-
-/-- **found_cycle_runs_away** (finding C18-c): if Found re-entries bring an activation back to
-    itself after `k > 0` steps, then for EVERY fuel the request is not answered, and not one
-    origin contact is made -/
-theorem found_cycle_runs_away (cfg : RedirectCache.Cfg) (now : Int) (locks : List Bytes) (store : Store) (k : Nat) (a : Act)
-    (hk : 0 < k) (h : foundAt cfg now locks store k a = some a) :
-    ∀ n, run cfg now n locks store a = .runaway [] := by
-  intro n
-  induction n using Nat.strongRecOn with
-  | _ n ih =>
-    by_cases hn : n ≤ k
-    · exact foundAt_short cfg now locks store k a a h n hn
-    · have := run_foundAt cfg now locks store k (n - k) a a h
-      rw [show n - k + k = n by omega] at this
-      rw [this]
-      exact ih (n - k) (by omega)
+/-- **found_loop_508** (was `found_cycle_runs_away`, finding C18-c): a run of Found re-entries
+    that is still going on when the counter is exhausted — after `maxRedirects - a.hops` of them
+    the activation reached is again answered by a stored redirect to follow — ends in 508 Loop
+    detected for EVERY fuel that covers the counter; not one origin contact is made and the store
+    is untouched.  (Before the repair such a request was never answered.) -/
+theorem found_loop_508 (cfg : RedirectCache.Cfg) (now : Int) (locks : List Bytes) (store : Store) (a s s' : Act)
+    (ha : a.hops ≤ cfg.maxRedirects)
+    (h : foundAt cfg now locks store (cfg.maxRedirects - a.hops) a = some s)
+    (hs : foundNext cfg now locks store s = some s') (fuel : Nat) (hfuel : cfg.maxRedirects + 1 ≤ fuel + a.hops) :
+    run cfg now fuel locks store a =
+      .done { sent := .userError 508 b!"Loop detected", contacts := [], store := store } := by
+  obtain ⟨h1, h2⟩ := run_foundAt cfg now locks store (cfg.maxRedirects - a.hops) (fuel - (cfg.maxRedirects - a.hops)) a s h (by omega)
+  rw [show fuel - (cfg.maxRedirects - a.hops) + (cfg.maxRedirects - a.hops) = fuel by omega] at h1
+  rw [h1]
+  obtain ⟨m, hm⟩ : ∃ m, fuel - (cfg.maxRedirects - a.hops) = m + 1 := ⟨fuel - (cfg.maxRedirects - a.hops) - 1, by omega⟩
+  rw [hm]
+  exact found_bound_508 cfg now m locks store s s' hs (by omega)
 
 /-! ## A hit, and warm = cold for a request answered by its first hop -/
 
@@ -259,7 +287,7 @@ theorem uncacheable_redirect_not_followed (cfg : RedirectCache.Cfg) (now : Int) 
   rw [if_neg hcache]
   simp only [hg, hroute, hdnc, if_true]
 
-/-! ## Concrete configurations (witnesses and non-vacuity) -/
+/-! ## Concrete configurations (former witnesses, witnesses and non-vacuity) -/
 
 /-- two prefixes, one destination, one cache; only `/f/*` restarts -/
 def ruleP : Rule := { path := b!"/p/*", wci := some 3, dest := b!"http://d0.test/$1", cacheId := b!"c1" }
@@ -275,7 +303,7 @@ def originOf (tbl : List (Bytes × OResp)) (c : Contact) : Option OResp :=
 
 def cfgOf (rules : List Rule) (tbl : List (Bytes × OResp)) : RedirectCache.Cfg :=
   { rules := rules, origin := originOf tbl, isRedirect := fun s => Spec.redirectStatuses.contains s,
-    hasStorage := fun id => id == b!"c1" }
+    hasStorage := fun id => id == b!"c1", maxRedirects := Spec.maxRedirects }
 
 def t0 : Int := 1700000000
 def edge : Bytes := b!"h.test"
@@ -290,10 +318,10 @@ def clientGet (target : Bytes) : Act :=
 
 example : clientAct b!"/f/a" edge = some (clientGet b!"/f/a") := by rfl
 
-/-- a request re-entered from the Found site under `/f/*` -/
-def reentered (path : Bytes) : Act :=
+/-- a request re-entered from the Found site under `/f/*`, the counter at `hops` -/
+def reentered (path : Bytes) (hops : Nat := 1) : Act :=
   { req := { url := { scheme := b!"http", host := edge, path := path }, host := edge, headers := [], method := b!"GET" },
-    overrideURL := some { scheme := b!"http", host := edge, path := path }, frf := some ruleF }
+    overrideURL := some { scheme := b!"http", host := edge, path := path }, frf := some ruleF, hops := hops }
 
 def doneOf : RedirectCache.Outcome → Done
   | .done d => d
@@ -308,82 +336,114 @@ def storeC : Store := (doneOf (run cfgC t0 1 [] storeA (clientGet b!"/p/b"))).st
 example : storeC.length = 2 := by decide
 example : (storeC.map (·.2.redirectedURL)) = [b!"http://h.test/f/a", b!"http://h.test/f/b"] := by decide
 
-theorem cycle2_first : foundNext cfgC t0 [] storeC (clientGet b!"/f/a") = some (reentered b!"/f/b") := by rfl
-theorem cycle2_cycle : foundAt cfgC t0 [] storeC 2 (reentered b!"/f/b") = some (reentered b!"/f/b") := by rfl
+def loop508 (store : Store) : RedirectCache.Outcome :=
+  .done { sent := .userError 508 b!"Loop detected", contacts := [], store := store }
 
-/-- **cycle2_runs_away**: with both hops of the loop in the cache, `GET /f/a` is never answered,
-    whatever the fuel — and the origin is never contacted -/
-theorem cycle2_runs_away : ∀ n, run cfgC t0 n [] storeC (clientGet b!"/f/a") = .runaway [] := by
-  intro n
-  cases n with
-  | zero => rfl
-  | succ n =>
-    rw [found_reentry cfgC t0 n [] storeC _ _ cycle2_first]
-    exact found_cycle_runs_away cfgC t0 [] storeC 2 _ (by omega) cycle2_cycle n
+theorem cycle2_first : foundNext cfgC t0 [] storeC (clientGet b!"/f/a") = some (reentered b!"/f/b") := by rfl
+theorem cycle2_round : foundAt cfgC t0 [] storeC 10 (clientGet b!"/f/a") = some (reentered b!"/f/a" 10) := by rfl
+theorem cycle2_still : foundNext cfgC t0 [] storeC (reentered b!"/f/a" 10) = some (reentered b!"/f/b" 11) := by rfl
+
+/-- **cycle2_508** (the former witness `cycle2_runs_away` of finding C18-c, repaired): with both
+    hops of the loop in the cache, `GET /f/a` is answered 508 Loop detected for every fuel from
+    `maxRedirects + 1` = 11 on — the origin is never contacted, the cache stays as it is -/
+theorem cycle2_508 : ∀ n, 11 ≤ n → run cfgC t0 n [] storeC (clientGet b!"/f/a") = loop508 storeC := by
+  intro n hn
+  exact found_loop_508 cfgC t0 [] storeC (clientGet b!"/f/a") _ _ (by decide) cycle2_round cycle2_still n
+    (by show Spec.maxRedirects + 1 ≤ n + 0; simp [Spec.maxRedirects]; omega)
 
 /-- a plain self-redirect: on the writer path `urlEquals` would see nothing either (absolute
-    Location, origin-form request), on the Found path nobody looks -/
+    Location, origin-form request), on the Found path no URL is compared — the counter ends it -/
 def cfgS : RedirectCache.Cfg := cfgOf [ruleP, ruleF]
   [(b!"/a", { status := 301, location := b!"http://h.test/f/a", body := b!"moved-0" })]
 
 def storeS : Store := (doneOf (run cfgS t0 1 [] [] (clientGet b!"/p/a"))).store
 
-theorem self_first : foundNext cfgS t0 [] storeS (clientGet b!"/f/a") = some (reentered b!"/f/a") := by rfl
-theorem self_cycle : foundAt cfgS t0 [] storeS 1 (reentered b!"/f/a") = some (reentered b!"/f/a") := by rfl
+theorem self_round : foundAt cfgS t0 [] storeS 10 (clientGet b!"/f/a") = some (reentered b!"/f/a" 10) := by rfl
+theorem self_still : foundNext cfgS t0 [] storeS (reentered b!"/f/a" 10) = some (reentered b!"/f/a" 11) := by rfl
 
-theorem self_runs_away : ∀ n, run cfgS t0 n [] storeS (clientGet b!"/f/a") = .runaway [] := by
-  intro n
-  cases n with
-  | zero => rfl
-  | succ n =>
-    rw [found_reentry cfgS t0 n [] storeS _ _ self_first]
-    exact found_cycle_runs_away cfgS t0 [] storeS 1 _ (by omega) self_cycle n
+/-- **self_508** (the former witness `self_runs_away`, repaired) -/
+theorem self_508 : ∀ n, 11 ≤ n → run cfgS t0 n [] storeS (clientGet b!"/f/a") = loop508 storeS := by
+  intro n hn
+  exact found_loop_508 cfgS t0 [] storeS (clientGet b!"/f/a") _ _ (by decide) self_round self_still n
+    (by show Spec.maxRedirects + 1 ≤ n + 0; simp [Spec.maxRedirects]; omega)
 
-/-! ## Termination on the cached path: stated at full strength, refuted -/
+/-! ## Termination on the cached path: stated at full strength, proved -/
 
 def isRunaway : RedirectCache.Outcome → Bool
   | .runaway _ => true
   | _ => false
 
+theorem isRunaway_prepend (c : Contact) (o : RedirectCache.Outcome) : isRunaway (o.prepend c) = isRunaway o := by
+  cases o <;> rfl
+
+/-- **run_not_runaway**: for every rule set, origin, clock, lock set, store and activation: once
+    the fuel covers what the counter still allows (`maxRedirects + 1 - a.hops` activations) the
+    run is not cut — every re-entry of `cachingFunc` in this slice is a counted redirect -/
+theorem run_not_runaway (cfg : RedirectCache.Cfg) (now : Int) :
+    ∀ (fuel : Nat) (locks : List Bytes) (store : Store) (a : Act), 0 < fuel →
+      cfg.maxRedirects + 1 ≤ fuel + a.hops → isRunaway (run cfg now fuel locks store a) = false := by
+  intro fuel
+  induction fuel with
+  | zero => intro _ _ _ h; omega
+  | succ n ih =>
+    intro locks store a _ hb
+    unfold run
+    simp only []
+    repeat' split
+    all_goals first
+      | rfl
+      | (rw [isRunaway_prepend]; exact ih _ _ _ (by omega) (by dsimp only; omega))
+      | exact ih _ _ _ (by omega) (by dsimp only; omega)
+
 /-- "Redirect chains that loop, … whether or not the hops are cached, end in an error response
-    after a bounded number of hops": some bound on the nesting serves every request of every
-    history, on every rule set and origin -/
+    after a bounded number of hops": the nesting `maxRedirects + 1` serves every request of every
+    history, on every rule set and origin — no request is cut as `runaway` -/
 def CachedTerminationStatement : Prop :=
-  ∃ N, ∀ (cfg : RedirectCache.Cfg) (host : Bytes) (now : Int) (ops : List Op),
-    ∀ o ∈ history cfg host N now [] ops, isRunaway o = false
+  ∀ (cfg : RedirectCache.Cfg) (host : Bytes) (N : Nat), cfg.maxRedirects + 1 ≤ N →
+    ∀ (now : Int) (store : Store) (ops : List Op), ∀ o ∈ history cfg host N now store ops, isRunaway o = false
+
+/-- **cached_terminates** (full strength since the repair of findings C18-a / C18-c; was
+    `CachedTerminationStatement_false`) -/
+theorem cached_terminates : CachedTerminationStatement := by
+  intro cfg host N hN now store ops
+  induction ops generalizing now store with
+  | nil => intro o ho; simp [history] at ho
+  | cons op rest ih =>
+    intro o ho
+    cases op with
+    | tick dt => exact ih (now + dt) store o (by simpa [history] using ho)
+    | request target =>
+      unfold history at ho
+      cases hc : clientAct target host with
+      | none => rw [hc] at ho; simp at ho
+      | some a =>
+        rw [hc] at ho
+        simp only at ho
+        have ha : a.hops = 0 := by
+          unfold clientAct at hc
+          simp only [Option.map_eq_some_iff] at hc
+          obtain ⟨_, _, rfl⟩ := hc
+          rfl
+        have hr := run_not_runaway cfg now N [] store a (by omega) (by omega)
+        cases hrun : run cfg now N [] store a with
+        | done d =>
+          rw [hrun] at ho
+          simp only [List.mem_cons] at ho
+          rcases ho with rfl | ho
+          · rfl
+          · exact ih now d.store o ho
+        | runaway cs => rw [hrun] at hr; simp [isRunaway] at hr
+        | selfwait cs =>
+          rw [hrun] at ho
+          simp only [List.mem_singleton] at ho
+          subst ho; rfl
 
 def opsC : List Op := [.request b!"/p/a", .request b!"/p/b", .request b!"/f/a"]
 
-/-- the two fills need one activation each, whatever the fuel -/
-theorem fillA (m : Nat) : run cfgC t0 (m + 1) [] [] (clientGet b!"/p/a")
-    = .done (doneOf (run cfgC t0 1 [] [] (clientGet b!"/p/a"))) := by rfl
-
-theorem fillB (m : Nat) : run cfgC t0 (m + 1) [] storeA (clientGet b!"/p/b")
-    = .done (doneOf (run cfgC t0 1 [] storeA (clientGet b!"/p/b"))) := by rfl
-
-theorem historyC (m : Nat) : (history cfgC edge (m + 1) t0 [] opsC).getLast? = some (.runaway []) := by
-  have h1 : clientAct b!"/p/a" edge = some (clientGet b!"/p/a") := rfl
-  have h2 : clientAct b!"/p/b" edge = some (clientGet b!"/p/b") := rfl
-  have h3 : clientAct b!"/f/a" edge = some (clientGet b!"/f/a") := rfl
-  have hA : (doneOf (run cfgC t0 1 [] [] (clientGet b!"/p/a"))).store = storeA := rfl
-  have hB : (doneOf (run cfgC t0 1 [] storeA (clientGet b!"/p/b"))).store = storeC := rfl
-  simp only [opsC, history, h1, h2, h3, fillA m, hA, fillB m, hB, cycle2_runs_away (m + 1)]
-  rfl
-
-/-- **CachedTerminationStatement_false** (finding C18-c) -/
-theorem CachedTerminationStatement_false : ¬ CachedTerminationStatement := by
-  intro ⟨N, h⟩
-  cases N with
-  | zero =>
-    have h0 : history cfgC edge 0 t0 [] [.request b!"/f/a"] = [.runaway []] := rfl
-    have := h cfgC edge t0 [.request b!"/f/a"] (.runaway []) (by rw [h0]; exact List.mem_singleton.mpr rfl)
-    simp [isRunaway] at this
-  | succ m =>
-    have hl := historyC m
-    have hmem : RedirectCache.Outcome.runaway [] ∈ history cfgC edge (m + 1) t0 [] opsC :=
-      List.mem_of_getLast? hl
-    have := h cfgC edge t0 opsC _ hmem
-    simp [isRunaway] at this
+/-- the former `historyC`: the history that fills the 2-cycle hop by hop and then asks for it
+    through the restarting prefix ends with the 508 (it used to end with `runaway []`), for every
+    fuel from 11 on -/
+example : (history cfgC edge 40 t0 [] opsC).map (fun o => (Spec.C18Cache.obsOf o).status) = [302, 302, 508] := by decide
 
 /-! ## The oracle on the model's outcomes -/
 
@@ -395,11 +455,13 @@ def nodesC : List CNode :=
 open Spec.C18Cache in
 def reqOpsC : List ReqOp := [.request b!"/p/a" 0, .request b!"/p/b" 1, .request b!"/f/a" 0]
 
-/-- **fails_witness_c**: the oracle rejects what the model does on the stored 2-cycle (fuel 40 =
-    the harness guard) -/
-theorem fails_witness_c :
-    (Spec.C18Cache.holds nodesC [ruleP, ruleF] edge {} reqOpsC ((history cfgC edge 40 t0 [] opsC).map Spec.C18Cache.obsOf)).bad
-      = ["bad:C18:loop-not-ended-by-an-error-response"] := by decide
+/-- the former `fails_witness_c`, repaired: the oracle ACCEPTS what the model does on the stored
+    2-cycle (regression stream kf.C18-c, case 0; fuel 40 = the harness guard): the request through
+    the restarting prefix is judged and found in order, no contact is made for it -/
+example :
+    let obs := (history cfgC edge 40 t0 [] opsC).map Spec.C18Cache.obsOf
+    let st := Spec.C18Cache.holds nodesC [ruleP, ruleF] edge {} reqOpsC obs
+    st.bad = [] ∧ st.oks = 1 ∧ obs.map (·.cut) = [none, none, none] ∧ obs.map (·.contacts.length) = [1, 1, 0] := by decide
 
 /-- `/a` answers 302 with `no-store` on a cache-enabled restarting rule; `/b` is the target -/
 def rootRule : Rule :=
@@ -465,9 +527,41 @@ example : run cfgD t0 40 [] [] (clientGet b!"/a") =
       resp := { status := 302, location := b!"/b", cacheControl := b!"no-store", body := b!"moved-0" }, redir := some { path := b!"/b" } }
     ⟨queryOf b!"/a", rfl, rfl, rfl, by decide⟩ rfl rfl rfl
 
-/-- `found_reentry` / `found_cycle_runs_away`: `cycle2_first`, `cycle2_cycle`, `self_cycle` are
-    instances; the store is reachable (`storeC` is what two requests leave behind) -/
+/-- `found_reentry` / `found_bound_508` / `found_loop_508`: `cycle2_first`, `cycle2_round`,
+    `cycle2_still`, `self_round`, `self_still` are instances; the store is reachable (`storeC` is
+    what two requests leave behind) -/
 example : history cfgC edge 1 t0 [] [.request b!"/p/a", .request b!"/p/b"] =
     [.done (doneOf (run cfgC t0 1 [] [] (clientGet b!"/p/a"))), .done (doneOf (run cfgC t0 1 [] storeA (clientGet b!"/p/b")))] := by rfl
+
+/-- the bound also ends a loop that runs below a writer: `/x → /a` is fetched (cold) while the
+    2-cycle `/a ↔ /b` is in the cache; the 508 written at the Found site is the client's answer,
+    and `/x`'s own hop is stored while the stack unwinds (one contact, three entries) -/
+def cfgX : RedirectCache.Cfg := cfgOf [ruleP, ruleF]
+  [(b!"/a", { status := 302, location := b!"http://h.test/f/b", body := b!"moved-0" }),
+   (b!"/b", { status := 302, location := b!"http://h.test/f/a", body := b!"moved-1" }),
+   (b!"/x", { status := 302, location := b!"http://h.test/f/a", body := b!"moved-x" })]
+
+example :
+    let outs := history cfgX edge 40 t0 [] [.request b!"/p/a", .request b!"/p/b", .request b!"/f/x", .request b!"/f/x"]
+    outs.map (fun o => (Spec.C18Cache.obsOf o).status) = [302, 302, 508, 508] ∧
+    outs.map (fun o => (Spec.C18Cache.obsOf o).contacts.length) = [1, 1, 1, 0] ∧
+    outs.map (fun o => (doneOf o).store.length) = [1, 2, 3, 3] := by decide
+
+/-- the counter below nested WRITER activations (regression stream kf.C18-c, case 3): a 12-cycle
+    fetched cold through a cache-enabled restarting rule.  Ten writers nest, the eleventh answer is
+    a redirect again: 508 from the writer site after 11 contacts, and the ten hops are stored while
+    the stack unwinds (the eleventh is not).  The repeat follows the ten stored hops, fetches the
+    eleventh and is answered 508 after that one contact. -/
+def ringName (i : Nat) : Bytes := b!"/c" ++ (Nat.toDigits 10 i).map Char.toNat
+
+def cfgRing : RedirectCache.Cfg := cfgOf [rootRule]
+  ((List.range 12).map fun i => (ringName i, ({ status := 302, location := ringName ((i + 1) % 12), body := b!"moved" } : OResp)))
+
+example :
+    let outs := history cfgRing edge 40 t0 [] [.request b!"/c0", .request b!"/c0"]
+    outs.map (fun o => (Spec.C18Cache.obsOf o).status) = [508, 508] ∧
+    outs.map (fun o => (Spec.C18Cache.obsOf o).cut) = [none, none] ∧
+    outs.map (fun o => (Spec.C18Cache.obsOf o).contacts.length) = [11, 1] ∧
+    outs.map (fun o => (doneOf o).store.length) = [10, 10] := by decide
 
 end Props.C18Cache
